@@ -1,5 +1,5 @@
 (* C02 - invariance statements about the cube-of-resolutions ORACLE (Model/KhCube.v + KhHomology.v) that
-   are plain combinatorics (DESIGN.md section 5, C02: C02_relabel_partial, C02_reverse, duality of a finite
+   are plain combinatorics (DESIGN.md section 5, C02: C02_relabel, C02_reverse, duality of a finite
    complex).  Invariance under Reidemeister / Markov moves is knot theory and is NOT proved.
 
    (0) [circles] is a canonical form: it only depends on the connectivity of the crossingless diagram.
